@@ -37,6 +37,7 @@ type Gen struct {
 	Spell     bool // use alternative spellings of paths
 	Malformed int  // per-mille probability of a malformed op
 	NMal      int
+	BelowFile int  // per-mille probability of a creating call below a regular file (refused: ENOTDIR)
 	ReadOnlyHandlesOnly bool
 	NoPaging  bool
 	Times     []int
@@ -196,6 +197,9 @@ func (g *Gen) Step() {
 		return
 	}
 	r := g.r
+	if g.BelowFile > 0 && r.Intn(1000) < g.BelowFile && g.belowFile() {
+		return
+	}
 	for try := 0; try < 20; try++ {
 		switch r.Intn(22) {
 		case 0, 1: // Mkdir
@@ -547,6 +551,50 @@ func (g *Gen) handleOp() bool {
 	default:
 		g.emit(-1, "HClose %d", s)
 		h.closed = true
+	}
+	return true
+}
+
+// belowFile appends a creating call whose nearest existing ancestor is a REGULAR FILE: the name
+// directly below the file, or one missing level further down.  The operating system answers
+// ENOTDIR and changes nothing; so does MemMapFs since it looks the ancestors up before creating
+// (it used to create the entry and turn the regular file into a directory).  Well-formed in the
+// sense of the OS comparison: same error class on both sides, the tracked tree is unchanged.
+func (g *Gen) belowFile() bool {
+	r := g.r
+	f, ok := g.pick(func(p string, n *absNode) bool { return !n.dir })
+	if !ok {
+		return false
+	}
+	p := f + "/" + Pick(r, g.names)
+	if r.Chance(1, 3) {
+		p += "/" + Pick(r, g.names)
+	}
+	switch r.Intn(5) {
+	case 0:
+		g.emit(g.newSlot(), "Create %s", g.hxp(p))
+	case 1:
+		g.emit(-1, "Mkdir %s %d", g.hxp(p), 0o755)
+	case 2:
+		// plain spelling, as for the other MkdirAll calls: os.MkdirAll splits the name itself and
+		// answers EEXIST instead of ENOTDIR for "/f//x" (its own quirk, not the kernel's)
+		g.emit(-1, "MkdirAll %s %d", hx([]byte(p)), 0o755)
+	case 3:
+		flag := Pick(r, accessFlags) | oCREATE
+		if r.Chance(1, 3) {
+			flag |= oEXCL
+		}
+		g.emit(g.newSlot(), "OpenFile %s %d %d", g.hxp(p), flag, 0o644)
+	default:
+		// Rename of an existing file or directory to a name below the regular file (not of an
+		// ancestor of that file: the kernel's answer for a move into the own subtree is EINVAL,
+		// another class of the comparison)
+		q, ok := g.pick(func(q string, n *absNode) bool { return q != "/" && q != f && !strings.HasPrefix(f, q+"/") })
+		if !ok {
+			g.emit(-1, "Mkdir %s %d", g.hxp(p), 0o755)
+			return true
+		}
+		g.emit(-1, "Rename %s %s", g.hxp(q), g.hxp(p))
 	}
 	return true
 }
